@@ -115,7 +115,8 @@ func (h *hookExplorer) EventAttributes(eventType observer.EventType) attributes.
 	}
 	return h.Explorer.EventAttributes(eventType)
 }
-func (h *hookExplorer) DeepClone() explorer.Explorer { return h }
+// a clone of the hooked explorer is a clone of the REAL explorer inside it (no hook: a sibling run is not the run under test)
+func (h *hookExplorer) DeepClone() explorer.Explorer { return h.Explorer.DeepClone() }
 
 // ---------------------------------------------------------------- the result a finish event carries
 
@@ -532,6 +533,18 @@ func runAnnealCase(c *Ctx, ac annealCase) {
 	}
 	if reconfigured {
 		c.Stat(fmt.Sprintf("configured twice (budget last set: %s)", nBucket(ac.N)))
+	}
+	// every third case: a SIBLING clone of the configured annealer (as every run of a scenario is a clone of it) anneals
+	// first, unrecorded; the annealer under test must still start at its configured temperature and iteration 1
+	if (ac.N+len(ac.lineup)+2*ac.at)%3 == 0 && ac.N <= 50 {
+		if p := protect(func() {
+			sib := ann.DeepClone()
+			sib.Anneal()
+		}); p == "" {
+			c.Stat("a sibling clone annealed first")
+		} else {
+			c.Stat("a sibling clone annealed first (it panicked: " + clip(p, 40) + ")")
+		}
 	}
 	merged := len(ac.lineup) > 0 && ac.lineup[0] == 'R'
 	cur0 := 0
